@@ -19,6 +19,7 @@ CheckOf(e) ==
     [] e.e = "New" -> NewCheck
     [] e.e = "Run" -> RunCheck(e)
     [] e.e = "Obs" -> ObsCheck(e)
+    [] e.e = "Reset" -> ResetCheck(e.comb, e.n)
     [] OTHER -> "harness.unknownEvent"
 
 UpdOf(e) ==
@@ -26,6 +27,7 @@ UpdOf(e) ==
     [] e.e = "New" -> NewUpd
     [] e.e = "Run" -> RunUpd(e)
     [] e.e = "Obs" -> ObsUpd(e)
+    [] e.e = "Reset" -> ResetUpd(e.comb, e.n)
 
 TNext == /\ verdict = "ok"
          /\ l <= Len(Ev)
